@@ -167,3 +167,94 @@ def tree_steps(name, shape, n, m, rng, k=2, order="dfs", dec_gen=None, term_gen=
 
 def hexpt(x):
     return [hex_of_float(float(v)) for v in x]
+
+
+class ArenaModel:
+    """predicts slab indices (LIFO reuse of freed slots), so scripts can refer to nodes created after removals"""
+
+    def __init__(self):
+        self.free = []
+        self.len_hw = 0     # high-water mark
+
+    def insert(self):
+        if self.free:
+            return self.free.pop()
+        self.len_hw += 1
+        return self.len_hw - 1
+
+    def remove(self, idx):
+        self.free.append(idx)
+
+
+def tree_steps_scrambled(name, shape, n, m, rng, k=2, dec_gen=None, term_gen=None, p_dummy=0.5, layout_f=0.0):
+    """like tree_steps but with a random insertion order and dummy leaves inserted and removed on the way,
+    so that arena indices are not in DFS/BFS order and slots get reused (child index < parent index happens).
+    returns (steps, index_of_path: dict path-tuple -> arena index)"""
+    rows = {2: 1, 4: 2, 8: 3}[k]
+
+    def dec():
+        if dec_gen is not None:
+            return dec_gen(rng, rows, n)
+        return ([nonzero_vec(rng, n) for _ in range(rows)], vec(rng, rows))
+
+    def term():
+        if term_gen is not None:
+            return term_gen(rng, m, n)
+        return (mat(rng, m, n), vec(rng, m))
+
+    def aj(M, c):
+        j = aff_json(M, c, n)
+        if rng.random() < layout_f:
+            j["layout"] = "f"
+        return j
+
+    arena = ArenaModel()
+    steps = []
+    M, c = dec() if shape != "T" else term()
+    steps.append({"op": "from_aff", "name": name, "k": k, "aff": aj(M, c)})
+    idx_of = {(): arena.insert()}
+    # pending insertions: (path, subshape)
+    pending = []
+    if shape != "T":
+        for label, ch in enumerate(shape[1]):
+            if ch is not None:
+                pending.append(((label,), ch))
+    dummies = {}     # (parent_path, label) -> idx
+    sub = {(): shape}
+
+    def slot_free(ppath, label):
+        return (ppath, label) not in dummies and (ppath + (label,)) not in idx_of
+
+    while pending or dummies:
+        # maybe add a dummy leaf somewhere
+        if pending and rng.random() < p_dummy:
+            cand = [(pp, l) for pp in idx_of if sub[pp] != "T" for l in range(k) if slot_free(pp, l)]
+            if cand:
+                pp, l = rng.choice(cand)
+                steps.append({"op": "add_child", "tree": name, "parent": idx_of[pp], "label": l, "aff": aj(*term())})
+                dummies[(pp, l)] = arena.insert()
+                continue
+        # maybe remove a dummy
+        if dummies and (not pending or rng.random() < 0.4):
+            (pp, l), di = rng.choice(sorted(dummies.items()))
+            steps.append({"op": "remove_child", "tree": name, "parent": idx_of[pp], "label": l})
+            arena.remove(di)
+            del dummies[(pp, l)]
+            continue
+        if not pending:
+            continue
+        i = rng.randrange(len(pending))
+        path, sh = pending.pop(i)
+        pp, l = path[:-1], path[-1]
+        if (pp, l) in dummies:
+            steps.append({"op": "remove_child", "tree": name, "parent": idx_of[pp], "label": l})
+            arena.remove(dummies.pop((pp, l)))
+        M, c = term() if sh == "T" else dec()
+        steps.append({"op": "add_child", "tree": name, "parent": idx_of[pp], "label": l, "aff": aj(M, c)})
+        idx_of[path] = arena.insert()
+        sub[path] = sh
+        if sh != "T":
+            for label, ch in enumerate(sh[1]):
+                if ch is not None:
+                    pending.append((path + (label,), ch))
+    return steps, idx_of
